@@ -1576,7 +1576,7 @@ pub fn run_c10(tier: Tier) -> i32 {
     // ---- (a) engine level: histories over a shuffle alphabet
     let t0 = Instant::now();
     let bases = ["rnbqkbnr/pppppppp/8/8/8/8/PPPPPPPP/RNBQKBNR w KQkq - 0 1", "rnbqkbnr/pppppppp/8/8/8/8/PPPPPPPP/RNBQKBNR w KQkq - 37 61", "rnbqkbnr/pppppppp/8/8/8/8/PPPPPPPP/RNBQKBNR b KQkq - 0 1", "r3k2r/8/8/8/8/8/8/R3K2R w - - 12 30", "4k2r/8/8/8/8/8/8/4K2R w Kk - 3 30", "4k3/8/8/8/8/8/8/4K2R w K - 3 30", "4k2r/8/8/8/8/8/8/4K3 b k - 3 30"];
-    let hist_len = if tier == Tier::Quick { 8 } else { 10 };
+    let hist_len = if tier == Tier::Quick { 7 } else { 10 };
     // enumerate histories breadth-first with the reference; keep only those where a repetition is
     // possible soon (every history is judged; the engine query is per continuation)
     let mut jobs: Vec<(Pos, Vec<Mv>)> = Vec::new();
